@@ -230,6 +230,7 @@ def clauseText (m : Msg) (mon : Mon) (x : Raw) : Clause → String
   | .unsupportedVersion => "C06: unsupported per-request version not answered with -32022 listing the supported versions"
   | .removedMethod => s!"C06: {m.mname} is removed from the 2026-07-28 protocol but was not answered method-not-found"
   | .discoverLegacy => "C06: server/discover served to a legacy request"
+  | .initializedTwice => "C06: repeated initialized notification accepted: the InitializedHandler ran again although it had already run for an earlier notifications/initialized of this session"
   | .f16 want => s!"C02: F16 initialize with null or undecodable params answered with code 0 instead of {showW want} (its own unmarshalParams wraps no coded error)"
   | .f17 want => s!"C02: F17 id on notifications/cancelled answered {x.w} by the cancellation preempter instead of {showW want}"
   | .codeWrong want => s!"C02: {m.mname} ({repr m.req.params}, id={m.req.hasId}) answered {x.w}, the property requires {showW want}"
@@ -259,6 +260,9 @@ def engine : Engine DState where
     match toks with
     | ["reset"] => ({ pid := d.pid }, { model := "ok" })
     | ["property", p] => ({ d with pid := p }, { model := "ok" })
+    -- `hold`: from here on the user's notification handlers of the case park until the next envelope has
+    -- been written (a schedule, not an input of the session: the model's step is the same)
+    | ["hold"] => (d, { model := "ok" })
     | ["tr", spec] =>
       match parseTr spec with
       | none => (d, { model := "bad-op" })
